@@ -9,6 +9,9 @@
 (* advancing between presentations: temporal theorems + behaviours for replay;                  *)
 (* (3) etcd: basicAuth in ETCD mode, snapshots of the credential table delivered between        *)
 (* presentations (removal, password change, empty table): temporal theorems + behaviours;       *)
+(* (the snapshots explored are GenTables; the Basic users are uPlain, uColon and uBlank - the    *)
+(* user whose credentials have white space at their ends -, the presented classes include the   *)
+(* ones that differ from configured credentials by leading / trailing white space only)         *)
 (* (4) reconf: hot updates (Reconfigure: new spec, new generation built with Inherit) between    *)
 (* presentations: JWT secret rotated / algorithm changed / cookie carrier switched, access keys *)
 (* removed / re-keyed / added, Basic users changed (FILE and ETCD), methods switched on and off, *)
@@ -106,10 +109,13 @@ SigReqs(c) ==
     \cup {R(<<>>, a, NoTok, NoTok, NoSg, NoBs) : a \in {"none", "other"}}
     \cup {R(<<>>, "basic", NoTok, NoTok, NoSg, BsRight)}
 
-BsAll == {Bs(u, "v1", w, b) : u \in {"uPlain", "uColon"}, w \in BsPws \ {"prefix"}, b \in BOOLEAN}
+(* every user x every class of presented credentials (incl. the white-space classes padded /    *)
+(* userPadded; trimmed only makes sense for the user whose credentials have white space)         *)
+BsAll == {Bs(u, "v1", w, b) : u \in KnownUsers, w \in BsPws \ {"prefix", "trimmed"}, b \in BOOLEAN}
          \cup {Bs("uColon", "v1", "prefix", b) : b \in BOOLEAN}
-         \cup {Bs("unknown", "v1", "wrong", b) : b \in BOOLEAN}
-         \cup {Bs(u, "v2", "right", TRUE) : u \in {"uPlain", "uColon"}}    \* a password that is not (yet) configured
+         \cup {Bs("uBlank", "v1", "trimmed", b) : b \in BOOLEAN}
+         \cup {Bs("unknown", "v1", w, b) : w \in {"wrong", "userPadded"}, b \in BOOLEAN}
+         \cup {Bs(u, "v2", "right", TRUE) : u \in KnownUsers}    \* a password that is not (yet) configured
 BasicReqs(c) ==
     {R(<<>>, "basic", NoTok, NoTok, NoSg, b) : b \in BsAll}
     \cup {R(<<>>, a, NoTok, NoTok, NoSg, NoBs) : a \in {"none", "other"}}
@@ -131,7 +137,8 @@ ComboBase(c) ==
                  \cup {R(<<>>, "bearer", t, NoTok, NoSg, NoBs) :
                           t \in {VTk(c), Tok("k1", c.jwt.alg, c.jwt.alg, 2, 6, "past", "none")}}
                  \cup {R(<<>>, "basic", NoTok, NoTok, NoSg, b) :
-                          b \in {Bs("uPlain", "v1", "right", TRUE), Bs("uPlain", "v1", "wrong", TRUE), Bs("uColon", "v1", "right", TRUE)}}
+                          b \in {Bs("uPlain", "v1", "right", TRUE), Bs("uPlain", "v1", "wrong", TRUE), Bs("uColon", "v1", "right", TRUE),
+                               Bs("uBlank", "v1", "right", TRUE)}}
     IN  {[[r EXCEPT !.hv = hv] EXCEPT !.ck = ck] : r \in {[x EXCEPT !.sg = s] : x \in plain, s \in qsg}
                                                          \cup {R(<<>>, "sig", NoTok, NoTok, s, NoBs) : s \in hsg},
                                                    hv \in hvs, ck \in cks}
@@ -162,8 +169,8 @@ RcToks == {Tok(k, a, a, -1, -1, "absent", "none") : k \in {"k0", "k1"}, a \in {"
           \cup {Tok("k0", "HS256", "HS256", -1, 6, "past", "none"), Tok("k1", "HS256", "HS256", -1, -1, "absent", "sig")}
 RcSgs(c) == {Sg(ca, k, "fresh", IF ca = "query" THEN "live" ELSE "-", c.sig.excl, ca = "header", m) :
                 ca \in {"header", "query"}, k \in SgKeys \ {"noidsecret", "id0nosecret"}, m \in {NoMut, Mut1("query")}}
-RcBss == {Bs(u, v, w, TRUE) : u \in KnownUsers, v \in {"v1", "v2"}, w \in {"right", "wrong"}}
-         \cup {Bs("unknown", "v1", "wrong", TRUE)}
+RcBss == {Bs(u, v, w, TRUE) : u \in {"uPlain", "uColon"}, v \in {"v1", "v2"}, w \in {"right", "wrong"}}
+         \cup {Bs("uBlank", "v1", "right", TRUE), Bs("uBlank", "v1", "padded", TRUE), Bs("unknown", "v1", "wrong", TRUE)}
 ReconfReqs(c) ==
     IF c.sig.on
     THEN {R(<<>>, IF s.carrier = "header" THEN "sig" ELSE "none", NoTok, NoTok, s, NoBs) : s \in RcSgs(c)}
@@ -180,7 +187,9 @@ ReconfReqs(c) ==
 (* and basicAuth may drop one of the two, one with jwt (cookie) or basicAuth FILE alone may gain  *)
 (* the other.  The unchanged spec is one of the updates (the pipeline re-inherits every filter   *)
 (* when anything in the pipeline changes).                                                       *)
-RcTables == {t \in UserTables : t["uColon"] = "v1" \/ \A u \in KnownUsers : t[u] = "gone"}
+RcTables == {t \in UserTables : \/ t["uColon"] = "v1" /\ t["uBlank"] = "v1"
+                                \/ t["uColon"] = "v1" /\ t["uPlain"] = "v1" /\ t["uBlank"] = "gone"
+                                \/ \A u \in KnownUsers : t[u] = "gone"}
 GenRecfgs(c, e) ==
     IF Mode # "reconf" THEN {}
     ELSE LET js == IF c.jwt.on THEN {J(al, ck) : al \in {"HS256", "HS384"}, ck \in BOOLEAN}
@@ -193,6 +202,13 @@ GenRecfgs(c, e) ==
                       a \in (IF c.sig.on THEN {t \in AkTables : \E i \in AkIds : t[i] # "gone"} ELSE {e.aks}),
                       u \in (IF c.basic # "off" THEN RcTables ELSE {e.users})} :
                 \E m \in Methods : Enabled(x.cfg, m)}
+
+(* the credential snapshots explored (etcd mode): every table of uPlain and uColon with uBlank    *)
+(* unchanged, uBlank removed / its password changed with the others unchanged, the empty table   *)
+GenTables == {t \in UserTables : \/ t["uBlank"] = "v1"
+                                 \/ t["uPlain"] = "v1" /\ t["uColon"] = "v1"
+                                 \/ \A u \in KnownUsers : t[u] = "gone"}
+TablesOk == ns' = ns + 1 => users' \in GenTables
 
 GenCfgs == IF Mode = "clock" THEN ClockCfgs ELSE IF Mode = "etcd" THEN EtcdCfgs
            ELSE IF Mode = "reconf" THEN ReconfCfgs ELSE EnumCfgs
@@ -217,7 +233,7 @@ Describe ==   \* of the step just taken (primed variables)
     ELSE [a |-> "adv", d |-> now' - now, now |-> now']
 
 GInit == Init /\ out = ToJson([a |-> "init", cfg |-> cfg, mat |-> mat, now |-> now, users |-> users])
-GNext == Next /\ out' = ToJson(Describe)
+GNext == Next /\ TablesOk /\ out' = ToJson(Describe)
 GSpec == GInit /\ [][GNext]_<<vars, out>>
 (* clock behaviours for replay: the request presented first is presented again and again while   *)
 (* the clock advances (a random walk over all requests would hardly ever present a token twice)  *)
@@ -243,17 +259,18 @@ RcShape ==
 (* (so that the walk chooses uniformly among requests, not among (request, observation) pairs)  *)
 Canon == n' = n + 1 => res'.acc \/ (res'.status = 401 /\ res'.intact)
 CNext == /\ Next
+         /\ TablesOk
          /\ Canon                                                                     \* (before the costly description)
          /\ IF Mode = "reconf" THEN RcShape
             ELSE (n' = n + 1 => IF n > 0 THEN req' = req ELSE Interesting(cfg, req'))
          /\ out' = ToJson(Describe)
 CSpec == GInit /\ [][CNext]_<<vars, out>>
 (* the same behaviours without the cost of describing them (model checking only) *)
-MSpec == Init /\ out = "" /\ [][Next /\ UNCHANGED out]_<<vars, out>>
+MSpec == Init /\ out = "" /\ [][Next /\ TablesOk /\ UNCHANGED out]_<<vars, out>>
 (* ... and with the first request presented again (reconf mode: the theorems about hot updates are *)
 (* about one request before and after; every (configuration, material, table, request) is still  *)
 (* reached, but not every PAIR of requests)                                                      *)
-RSpec == Init /\ out = "" /\ [][Next /\ UNCHANGED out /\ (n' = n + 1 /\ n > 0 => req' = req)]_<<vars, out>>
+RSpec == Init /\ out = "" /\ [][Next /\ TablesOk /\ UNCHANGED out /\ (n' = n + 1 /\ n > 0 => req' = req)]_<<vars, out>>
 
 (* every single mutation of a not yet mutated request (carrying one token at most) that must be *)
 (* accepted is itself one of the enumerated vectors, i.e. it is executed on the real code from  *)
